@@ -9,7 +9,7 @@ TRUSTED = ['polynomial identities proved over Z hold in every commutative ring (
            'numba compilation of the kernels (the Python source is what is translated/modelled)']
 ASSUMPTIONS = ['sum-level theorems: any scatter/gather lottery (adjointness, mass, non-negativity), the 1-D row and the 2-D lottery with translated corner weights (adjointness, mass, '
                'exact second-order expansion with the shock kernel as first-order term, zero-mass shocks, non-negativity over the integers as an ordered ring)',
-               'DiscreteChoice / LogitChoice transitions: oracle only']
+               'DiscreteChoice / LogitChoice: laws proved for abstract choice weights (the exponential inside logit_choice is not modelled; the oracle checks backward_step end to end)']
 HEADER = 'From Coq Require Import ZArith List.\nFrom SSJ Require Import Model.Transitions.\nImport ListNotations.\nOpen Scope Z_scope.\n'
 
 
@@ -98,14 +98,92 @@ def correspondence(ctx):
             got, ok, model = f'raised {type(ex).__name__}: {ex}', False, None
         if not ok:
             dis.append(dict(what='het_compiled 2-D kernels', case=c, impl=got, model=model))
-    cases = cases + cases2
-    logs = logs + logs2
+    cases3, logs3, dis3, stats3 = correspondence_dchoice(ctx, n // 2)
+    dis += dis3
+    stats.update(stats3)
+    for c in cases3:
+        distinct.add(C.canon(c))
+    cases = cases + cases2 + cases3
+    logs = logs + logs2 + logs3
     for l in logs:
         dis.append(dict(what='coq evaluation failed', log=l))
     return dict(evaluations=len(cases), distinct_nontrivial=len(distinct),
                 rule='integer 2-D lotteries (2..4 x 2..4 grids, arbitrary integer weights and index arrays) through forward_policy_2d / expectation_policy_2d / forward_policy_shock_2d vs the scatter model on the flattened space; integer rows (n 2..7, arbitrary integer weights incl. outside [0,1], non-monotone index arrays) through the three 1-D kernels; '
-                     '1-4 Markov stages with random None/shock patterns through CombinedTransition.forward_shock vs the abstract product-rule model',
+                     '1-4 Markov stages with random None/shock patterns through CombinedTransition.forward_shock vs the abstract product-rule model; DiscreteChoice @ / .T @ and LogitChoice.backward_step_shock '
+                     '(dEV, dP, shocked expectation) on integer arrays of 1-3 dimensions, 1-3 choices, choice replacing any dimension, vs Model/DChoice.v',
                 samples=[cases[0], cases[1]], disagreements=dis, stats=stats)
+
+
+def correspondence_dchoice(ctx, n):
+    """DiscreteChoice @ / .T @ and LogitChoice.backward_step_shock on integer arrays of 1-3 dimensions vs Model/DChoice.v (exact unless the taste-shock scale is not a power of two)."""
+    from fractions import Fraction
+    from sequence_jacobian.blocks.support.stages import LogitChoice
+    hc, hs, lom, md, ip = mods()
+    rng = ctx['rng']
+    hdr = 'From Coq Require Import ZArith QArith Qcanon List.\nFrom SSJ Require Import Model.DChoice.\nImport ListNotations.\n'
+    cases, exprs = [], []
+    nl = lambda xs: '[' + '; '.join(str(x) for x in xs) + ']%nat'
+    zl = lambda xs: '[' + '; '.join(f'({x})' if x < 0 else str(x) for x in xs) + ']%Z'
+    for k in range(n):
+        nd = rng.randint(1, 3)
+        sh = [rng.randint(1, 3) for _ in range(nd)]
+        i = rng.randrange(nd)
+        nch = rng.randint(1, 3)
+        sh2 = [nch if j == i else x for j, x in enumerate(sh)]
+        N, N2 = int(np.prod(sh)), int(np.prod(sh2))
+        c = dict(kind='dchoice' if k % 2 == 0 else 'logit_shock', sh=sh, i=i, nch=nch, P=[rng.ints(N, -2, 3) for _ in range(nch)])
+        Pl = '[' + '; '.join(zl(r) for r in c['P']) + ']'
+        if c['kind'] == 'dchoice':
+            c.update(D=rng.ints(N, -3, 4), X=rng.ints(N2, -3, 3))
+            exprs.append(f'run_dchoice {nl(sh)} {nch} {i} {Pl} {zl(c["D"])} {zl(c["X"])}')
+        else:
+            c.update(scale=rng.choice([(2, 1), (1, 2), (4, 1), (3, 1), (1, 1), (5, 4)]), dVn=rng.ints(N2, -3, 3), Xss=rng.ints(N2, -3, 3),
+                     dX=rng.ints(N2, -2, 2) if rng.random() < 0.7 else None)
+            exprs.append(f'(run_logit_shock {nl(sh)} {nch} {i} {Pl} {c["scale"][0]} {c["scale"][1]} {zl(c["dVn"])} {zl(c["Xss"])} {zl(c["dX"] or [0] * N2)})')
+        cases.append(c)
+    ka = [j for j, c in enumerate(cases) if c['kind'] == 'dchoice']
+    kb = [j for j, c in enumerate(cases) if c['kind'] != 'dchoice']
+    va, la = C.eval_in_coq('C08', hdr, [exprs[j] for j in ka], chunk=100, tag='dch')
+    vb, lb = C.eval_in_coq('C08', hdr, [exprs[j] for j in kb], chunk=100, tag='lsh')
+    vals, logs = [None] * len(cases), la + lb
+    for j, v in zip(ka, va):
+        vals[j] = v
+    for j, v in zip(kb, vb):
+        vals[j] = v
+    fr = lambda t: Fraction(int(t[0]), int(t[1]))
+    dis, stats = [], {}
+    for c, vm in zip(cases, vals):
+        stats[c['kind']] = stats.get(c['kind'], 0) + 1
+        stats[f'dims={len(c["sh"])}'] = stats.get(f'dims={len(c["sh"])}', 0) + 1
+        try:
+            sh, i, nch = tuple(c['sh']), c['i'], c['nch']
+            sh2 = tuple(nch if j == i else x for j, x in enumerate(sh))
+            P = np.array(c['P'], dtype=float).reshape((nch,) + sh)
+            dc = lom.DiscreteChoice(P, i)
+            if c['kind'] == 'dchoice':
+                got = [(dc @ np.array(c['D'], dtype=float).reshape(sh)).reshape(-1).tolist(), (dc.T @ np.array(c['X'], dtype=float).reshape(sh2)).reshape(-1).tolist()]
+                m = vm
+                model = [[float(fr(t)) for t in m[0]], [float(fr(t)) for t in m[1]]]
+                ok = got == model
+            else:
+                st = LogitChoice(value='V', backward=['Va'], index=i, taste_shock_scale='tss', f=None, name='choice')
+                scale = c['scale'][0] / c['scale'][1]
+                shocks = {'V': np.array(c['dVn'], dtype=float).reshape(sh2)}
+                if c['dX'] is not None:
+                    shocks['Va'] = np.array(c['dX'], dtype=float).reshape(sh2)
+                dout, dlom = st.backward_step_shock({'tss': scale, 'Va': np.array(c['Xss'], dtype=float).reshape(sh2)}, shocks, (None, dc))
+                got = [dout['V'].reshape(-1).tolist(), [dlom.P[d].reshape(-1).tolist() for d in range(nch)], dout['Va'].reshape(-1).tolist()]
+                m = list(vm)
+                if len(m) == 2:      # ((a, b), c) printed flat or nested
+                    m = list(m[0]) + [m[1]]
+                model = [[float(fr(t)) for t in m[0]], [[float(fr(t)) for t in r] for r in m[1]], [float(fr(t)) for t in m[2]]]
+                flat = lambda z: np.concatenate([np.ravel(np.array(q, dtype=float)) for q in z])
+                ok = np.shape(flat(got)) == np.shape(flat(model)) and bool(np.allclose(flat(got), flat(model), rtol=0, atol=1e-12))
+        except Exception as ex:
+            got, ok, model = f'raised {type(ex).__name__}: {ex}', False, None
+        if not ok:
+            dis.append(dict(what='DiscreteChoice @ / .T @' if c['kind'] == 'dchoice' else 'LogitChoice.backward_step_shock', case=c, impl=got, model=model))
+    return cases, logs, dis, stats
 
 
 # ---------------------------------------------------------------------------------------------------
